@@ -59,6 +59,13 @@ CASES.append({"label": "logical_not", "f": "logical_not", "spec": [("BoolArray",
 CASES.append({"label": "concatenate,same", "f": "concatenate", "spec": [("Array", "1d", "a"), ("Array", "1d", "a")], "seq": True})
 CASES.append({"label": "add,out=", "f": "add", "spec": [("Array", "1d", "a"), ("Array", "1d", "a")], "out": True})
 CASES.append({"label": "multiply,out=", "f": "multiply", "spec": [("Array", "1d", "a"), ("Array", "1d", "b")], "out": True})
+# out= naming a third Array that carries a different unit: values and unit of the result go there
+CASES.append({"label": "add,out=third", "f": "add", "spec": [("Array", "1d", "a"), ("Array", "1d", "a")], "out": "third"})
+CASES.append({"label": "negative,out=third", "f": "negative", "spec": [("Array", "1d", "a")], "out": "third"})
+CASES.append({"label": "maximum,out=third", "f": "maximum", "spec": [("Array", "1d", "a"), ("Array", "1d", "a")], "out": "third"})
+CASES.append({"label": "multiply,out=third", "f": "multiply", "spec": [("Array", "1d", "a"), ("Array", "1d", "b")], "out": "third"})
+# (a predicate written into a float out= array is left out: numpy's result then has the out array's dtype, which the
+# dtype model of the stub does not follow)
 
 
 @unit("C10", "_wrap_numpy", targets=T, cases=CASES, replay=N.replay_catalogue,
